@@ -611,6 +611,7 @@ func (x *Exec) VerifyFunc(fn *ssa.Function, spec *FuncSpec) (obls []*Obligation,
 	}()
 	vc := &VC{fn: fn, spec: spec, initHeap: map[string]*Term{}, checkFrame: true}
 	x.vc = vc
+	x.n = 0 // names of generated symbols depend only on the function under verification
 	vc.trackPanics = spec.NoPanic || len(spec.PanicsIf) > 0 || len(spec.PanicsIff) > 0
 	vc.allocBase = Var("alloc_0", SInt)
 	allocRanks = map[string]int{"alloc_0": 0}
